@@ -357,6 +357,6 @@ func TestC17(t *testing.T) {
 	}
 	s.Rec.Extra("exhaustive", complete)
 	s.Rec.Extra("exhaustive_subdomain", "every 8-bit block value (4 x 256) of the discrete log in the 2^32 subgroup with the other blocks 0 / 0xFF / seed-dependent; all 2^k-th roots of unity k=0..32; 0, 1, p-1 — for both SqrtPrecomp and GetPointFromX")
-	c17Part.Run(s, hx.PerShard(hx.Pick(320000, 4000000)))
+	c17Part.Run(s, hx.PerShard(hx.Pick(320000, 20000000)))
 	c17Part.RunConcurrent(s, 8, hx.Pick(1500, 20000))
 }
